@@ -120,7 +120,7 @@ Op gen_hmac(Ctx &c, GHmac &g, int obj, bool erase_bias) {
         o.b = r.below(8);
         if (o.a == 0 && r.chance(1, 2)) o.flags |= F_NULLPTR;
         g.len += o.a; break;
-    case M_FINAL: o.b = r.below(8); g.st = ST_FINAL; break;
+    case M_FINAL: o.b = r.below(64); g.st = ST_FINAL; break;
     case M_FREE: if (r.chance(1, 6)) o.flags |= F_TWICE; g.st = ST_DEAD; break;
     case M_DIRTY: o.a = r.below(3); g.st = ST_DEAD; break;
     }
@@ -184,7 +184,7 @@ Op gen_hkdf(Ctx &c, GHkdf &g, int obj, bool erase_bias) {
             else if (y < 92) len = 33 + r.below(68);
             else len = 100 + r.below(400);
         }
-        o.a = len; o.b = r.below(8);
+        o.a = len; o.b = r.below(64);
         g.cur = std::min<size_t>(8160, g.cur + len);
         break;
     }
@@ -504,6 +504,18 @@ Plan generate_plan(const std::string &engine, int armed, uint64_t seed, bool tho
             }
             tp.ops.push_back(o);
         }
+        p.tasks.push_back(tp);
+    }
+    // thorough tier, rarely: one generator is driven past 1 MiB with the limit set above the 1 MiB cap
+    if (engine == "prng" && ((thorough && armed == C15 && r.chance(1, 6000)) || (armed == C16 && r.chance(1, thorough ? 1500 : 12000)))) {
+        TaskPlan tp;
+        Op i0 = mk(P_INIT, 0); i0.a = 5; i0.dseed = ds(r); tp.ops.push_back(i0);
+        static const uint64_t BIG[] = {1048577ULL, ~0ULL, 1048576ULL, 2000000ULL};
+        Op l = mk(P_LIMIT, 0); l.a = BIG[r.below(4)]; l.dseed = ds(r); tp.ops.push_back(l);
+        Op g0 = mk(P_GEN, 0); g0.a = 1048576 - 64 + 32 * r.below(4); g0.dseed = ds(r); tp.ops.push_back(g0);
+        Op g1 = mk(P_GEN, 0); g1.a = 32 + r.below(200); g1.dseed = ds(r); tp.ops.push_back(g1);
+        Op g2 = mk(P_GEN, 0); g2.a = 64; g2.dseed = ds(r); tp.ops.push_back(g2);
+        if (p.tasks.size() >= (size_t)MAXTASK) p.tasks.pop_back();
         p.tasks.push_back(tp);
     }
     return p;
